@@ -302,6 +302,13 @@ def check_axisless_reductions(run, A, quals, rule='R-ELL', exceptions=None):
                 continue
             if opnd is None or not any(x.op in ('param', 'free') for x in data_terms(opnd)):
                 continue
+            # a reduction of the CURRENT element of a loop over the leading index (eigenvalues of the f-th matrix) is per index by construction
+            from .walk import loop_role
+            if any(x.op in ('sub', 'elem', 'unpack') and (loop_role(x) or (None,))[0] in ('slice', 'index') for x in walk_terms(opnd, into_mu=False)):
+                continue
+            # ... also when the loop counts by hand (a while loop with its own counter): the operand is indexed with a value the loop carries
+            if getattr(e, 'loops', None) and any(x.op == 'sub' and any(y.op in ('mu', 'elem') for y in walk_terms(x.args[1], into_mu=False)) for x in walk_terms(opnd, into_mu=False)):
+                continue
             n += 1
             none = ax is None or (ax.op == 'const' and ax.args[0] is None)
             if none and (q, cname) in exceptions:
